@@ -9,7 +9,7 @@
    consumed (POSTCONDITION AllConsumed); each event's verdict (ok / skip / a
    diagnosis) goes to the verdict file, so that one rejected event never hides
    the rest of the trace. *)
-EXTENDS SemOverflow, AsCodedOverflow, SemScaled, SemRounding, AsCodedRounding, SemElastic, SemBits, SemSqrt, SemFraction, SemWide, SemText, SemNative, TLC, TLCExt, Json, IOUtils, CSV
+EXTENDS SemOverflow, AsCodedOverflow, SemScaled, SemRounding, AsCodedRounding, SemElastic, SemSqrt, SemFraction, SemWide, SemNative, SemParse, TLC, TLCExt, Json, IOUtils, CSV
 
 Tr == ndJsonDeserialize(IOEnv.TRACE)
 Insts == ndJsonDeserialize(IOEnv.INSTS)
@@ -59,6 +59,9 @@ Verdict0(e, i) ==
       [] e.e = "NtUn" -> JudgeNtUn(e, i)
       [] e.e = "NtAssign" -> JudgeNtAssign(e, i)
       [] e.e = "NtKernel" -> JudgeNtKernel(e, i)
+      [] e.e = "Parse" -> JudgeParse(e, i)
+      [] e.e = "Lit" -> JudgeLit(e, i)
+      [] e.e = "Make" -> JudgeMake(e, i)
       [] e.e = "RDiv" -> JudgeRDiv(e, i)
       [] e.e = "ROp" -> JudgeROp(e, i)
       [] e.e = "RConv" -> JudgeRConv(e, i)
